@@ -152,7 +152,7 @@ Print Assumptions dup_terminates.
 
 (* The copy is the original with every pointer renamed: its root is shift_ty of the
    root, and every user type of the copy is shift_def of the user type it stands for
-   (all fields kept except Docs and ContentType, see below). *)
+   (all fields kept except ContentType of a result type, see below). *)
 Theorem dup_is_renaming E offu offk fuel t E' t' :
   (forall id id' d d', elookup id E = Some d -> elookup id' E = Some d' -> ut_id d = ut_id d' -> id = id') ->
   (forall id d, elookup id E = Some d -> names_ok (ut_type d)) ->
@@ -229,16 +229,21 @@ Proof.
 Qed.
 Print Assumptions dup_views_partial.
 
-(* Fields the copy loses (two recorded findings, patch proposed): DupAttribute does not
-   copy Docs, ResultTypeExpr.Dup does not copy ContentType; every other field is kept *)
-Theorem dup_keeps_fields_refuted : (exists i, dup_info i <> i) /\ (exists r, dup_rt r <> r).
-Proof. exact (conj dup_info_docs_lost dup_rt_ctype_lost). Qed.
-Print Assumptions dup_keeps_fields_refuted.
+(* The copy of an attribute keeps every field (Docs included, since the repair of
+   DupAttribute): on the non-type part of an attribute Dup is the identity *)
+Theorem dup_keeps_attribute_fields i : dup_info i = i.
+Proof. exact (dup_info_id i). Qed.
+Print Assumptions dup_keeps_attribute_fields.
 
-Theorem dup_keeps_fields_partial i r :
-  (a_docs i = false -> dup_info i = i) /\ ((forall x, r = Some x -> rt_ctype x = []) -> dup_rt r = r).
-Proof. exact (conj (dup_info_id i) (dup_rt_id r)). Qed.
-Print Assumptions dup_keeps_fields_partial.
+(* The one field the copy of a result type loses (recorded finding): ResultTypeExpr.Dup
+   does not copy ContentType; Identifier and Views are kept *)
+Theorem dup_keeps_result_fields_refuted : exists r, dup_rt r <> r.
+Proof. exact dup_rt_ctype_lost. Qed.
+Print Assumptions dup_keeps_result_fields_refuted.
+
+Theorem dup_keeps_result_fields_partial r : (forall x, r = Some x -> rt_ctype x = []) -> dup_rt r = r.
+Proof. exact (dup_rt_id r). Qed.
+Print Assumptions dup_keeps_result_fields_partial.
 
 (* ---- non-vacuity ---- *)
 
@@ -265,6 +270,13 @@ Example dup_example :
   Dup E 2 2 (dup_fuel E (TUser 0)) (TUser 0)
   = Some ([(2, UT [84;49]%N [] ai_none (TObj 2 [F [97%N] ai_none (TUser 3)]) None);
            (3, UT [84;50]%N [] ai_none (TObj 3 [F [98%N] ai_none (TUser 2)]) None)], TUser 2).
+Proof. vm_compute. reflexivity. Qed.
+
+(* an attribute with Docs is copied with its Docs (regression witness of the repaired
+   DupAttribute) *)
+Example dup_docs_example :
+  let i := AI [] None [] true [] in
+  Dup [] 1 1 4 (TArr i tInt) = Some ([], TArr i tInt).
 Proof. vm_compute. reflexivity. Qed.
 
 (* the class of hash_sound_partial is inhabited, contains {a:{b:int,c:int}} and {c:int, z:{b:int}},
